@@ -36,6 +36,7 @@ package ocsp
 //@   ensures [root-nonrevokable] err == nil ==> result[len(result)-1] != nil && result[len(result)-1].Result == result.ResultNonRevokable
 //@   ensures [per-certificate] err == nil ==> forall k :: 0 <= k && k < len(result) - 1 ==> OCSPSlotOK(opts.CertChain[k], opts.CertChain[k+1], result[k], opts.SigningTime)
 //@   ensures [no-lost-panic] !panicked()
+//@   assert before call ocsp.CertCheckStatus#0: [ocsp-args] arg1 == cert && arg1 == opts.CertChain[i] && arg2 == opts.CertChain[i+1] && arg3.SigningTime == opts.SigningTime
 //@   loop 0
 //@     invariant len(opts.CertChain) > 0 && len(certResults) == len(opts.CertChain) && fresh(certResults)
 //@     invariant certCheckStatusOptions.HTTPClient == opts.HTTPClient && certCheckStatusOptions.SigningTime == opts.SigningTime
